@@ -319,7 +319,10 @@ func ServePrincipal(w http.ResponseWriter, r *http.Request, options *ServePrinci
 
 func servePrincipalPropfind(w http.ResponseWriter, r *http.Request, options *ServePrincipalOptions) error {
 	var propfind internal.PropFind
-	if err := internal.DecodeXMLRequest(r, &propfind); err != nil {
+	if internal.IsRequestBodyEmpty(r) {
+		// An empty body means allprop
+		propfind.AllProp = &struct{}{}
+	} else if err := internal.DecodeXMLRequest(r, &propfind); err != nil {
 		return err
 	}
 	props := map[xml.Name]internal.PropFindFunc{
